@@ -307,3 +307,39 @@ def assignments_to(fi, name):
                         if isinstance(e, ast.Name) and e.id == name:
                             out.append((n, None))
     return out
+
+
+def flatten_fact(cond, pol):
+    """Conjuncts (text, polarity) known to hold given that `cond` evaluates to `pol`."""
+    if isinstance(cond, ast.BoolOp) and isinstance(cond.op, ast.And) and pol:
+        out = []
+        for v in cond.values:
+            out += flatten_fact(v, True)
+        return out
+    if isinstance(cond, ast.BoolOp) and isinstance(cond.op, ast.Or) and not pol:
+        out = []
+        for v in cond.values:
+            out += flatten_fact(v, False)
+        return out
+    if isinstance(cond, ast.UnaryOp) and isinstance(cond.op, ast.Not):
+        return flatten_fact(cond.operand, not pol)
+    return [(ast.unparse(cond), pol)]
+
+
+def facts_at(fi, node):
+    """Flattened path facts [(text, polarity)] holding whenever `node` executes."""
+    out = []
+    for cond, pol, kind in path_conditions(fi, node):
+        out += flatten_fact(cond, pol)
+    return out
+
+
+def resolve_alias(fi, expr, hops=3):
+    """Follow single-assignment name aliases: x = y; y = <expr>  ->  <expr>."""
+    while hops > 0 and isinstance(expr, ast.Name):
+        binds = [v for _, v in assignments_to(fi, expr.id)]
+        if len(binds) != 1 or binds[0] is None:
+            return expr
+        expr = binds[0]
+        hops -= 1
+    return expr
